@@ -7,4 +7,6 @@ python3 tools/extract_tables.py
 (cd lean && lake build Adb adbdrv Audit)
 [ -f harness/Cargo.lock ] || cp /repo/Cargo.lock harness/Cargo.lock
 (cd harness && cargo build --release --offline)
+# the thread-safe configuration of the same harness (C19)
+(cd harness && cargo build --release --offline --no-default-features --target-dir target-sync)
 echo setup-ok
